@@ -843,7 +843,14 @@ def c18_16(ctx):
     return [ctx.ok(spec, "no refusal depends on the size of the unary quotient (%d counter(s) inspected)" % len(counters), fn, mod, key="golomb-total")]
 
 
+def c18_17(ctx):
+    """the bit-field codec BIP37 filters are serialised with: one byte per 8 bits, least significant first, every byte of the declared size written (shared with C17.10)"""
+    from rules.C17 import c17_10
+    return c17_10(ctx)
+
+
 OBLIGATIONS = [
+    ("C18.17", "BITS (shared C17.10)", c18_17),
     ("C18.15", "VERDICT-SOURCE", c18_15),
     ("C18.16", "TOTALITY", c18_16),
     ("C18.14", "SHARED", c18_14),
